@@ -21,6 +21,7 @@ func init() {
 	})
 	ruleText["R05.1"] = "for every MapTypes[reflect.ValueOf(p.F)] entry: the value bound for p.F in an interpreter is p.F itself, or fixStdlib both overrides p.F and re-keys mapTypes[override] from reflect.ValueOf(p.F); every re-keying in fixStdlib reads a key that exists in MapTypes; within a package, every bound exported function whose signature is identical to a keyed function's is keyed too"
 	ruleText["R05.3"] = "in the recursive closure of (*itype).methods, no unconditional store merging the result of a recursive call is reachable from the store recording the type's own methods (range over itype.method)"
+	ruleText["R05.4"] = "same analysis as C08/R08.1: no run-time closure writes (assignment, element/field store, also through a one-step local alias) to a variable captured from its generator; receivers and resolved method nodes are per-call values"
 	ruleText["R05.2"] = "in every function that creates a frame with newFrame, each element store into the new frame's data vector (directly or through a local slice of it) has as right-hand side reflect.New(t).Elem(), a copier call, a MakeFunc-built function value, or the frozen exception of directly assigned result slots (call: rvalues)"
 }
 
@@ -32,6 +33,17 @@ func runC05(c *Config, r *Report) {
 	}
 	freshFrameSlots(ic, r, "R05.2")
 	c05R3(ic, r)
+	// R05.4: method resolution and receiver binding happen per call. The run-time closures keep
+	// no mutable per-call-site state (same analysis as C08/R08.1): a node or receiver cached
+	// in a captured variable is shared by every call through that site, so a method value
+	// bound earlier sees the receiver of a later call.
+	sub := newReport("C08")
+	c08R1(ic, sub)
+	for _, o := range sub.Obls {
+		o.Rule = "R05.4"
+		r.add(o)
+	}
+	r.Errors = append(r.Errors, sub.Errors...)
 	prog, err := c.load(loadOpts{patterns: []string{"./stdlib"}})
 	if err != nil {
 		r.Errorf("%v", err)
